@@ -22,7 +22,7 @@ import (
 func init() {
 	Register(&Monitor{
 		ID: "C09",
-		Rule: "per case one abstract document -> namespace normalisation (prefix choice, hoisted/repeated/overridden declarations, default namespace and its undeclaration) -> 3 randomised serialisations (quote style, empty-element tags, whitespace in tags, text as plain/CDATA/decimal+hex character references/predefined entities, XML declaration variants, DOCTYPE, prolog/epilog comments and PIs, LF/CRLF, encodings UTF-8 (+-BOM), US-ASCII, ISO-8859-1/-15, windows-1252, KOI8-R) -> xsel.ReadXml; " +
+		Rule: "per case one abstract document -> namespace normalisation (prefix choice, hoisted/repeated/overridden declarations, default namespace and its undeclaration) -> 3 randomised serialisations (quote style, empty-element tags, whitespace in tags, text as plain/CDATA/decimal+hex character references/predefined entities, XML declaration variants, DOCTYPE, prolog/epilog comments and PIs, LF/CRLF, encodings UTF-8 (+-BOM), US-ASCII, ISO-8859-1/-15, windows-1252, KOI8-R) -> xsel.ReadXml from a reader whose delivery pattern (one Read / pseudo-random chunks of 1..23 bytes / one byte per Read / a Read ending after every '>') is determined by the bytes; " +
 			"oracle: parallel walk of the cursor tree against the document (expanded names, attributes without namespace declarations, merged character data, comments, PIs without the XML declaration, per-element namespace nodes = in-scope bindings + xml each owned by that element) plus the C10 structural invariants; " +
 			"malformed inputs by mutation (dropped/mismatched end tag, truncation, undefined entity, control characters, invalid UTF-8, bogus encoding label): whenever encoding/xml itself (same charset reader) reports a non-EOF error on the bytes, ReadXml must return a non-nil error. distinct_nontrivial = distinct (document shape, serialisation feature set) for well-formed inputs plus distinct mutation kinds x shapes",
 		Assumptions: []string{"attribute order/duplicates, CRLF normalisation and charset tables are encoding/xml's and x/net's, not xsel's", "white space outside the document element is not part of the data model"},
@@ -62,7 +62,8 @@ func safeReadXml(b []byte) (c xsel.Cursor, err error) {
 			c, err = nil, fmt.Errorf("PANIC escaped ReadXml: %v", p)
 		}
 	}()
-	return xsel.ReadXml(bytes.NewReader(b))
+	rd, _ := hostileReader(b, contentMode(b)) // whole / chunks / single bytes / Reads ending after '>' — determined by the content
+	return xsel.ReadXml(rd)
 }
 
 func c09Case(r *evid.Run, tier string, idx int, g *rng.R) {
